@@ -255,6 +255,11 @@ def run_case(case, ctx):
     ctx.sig = f"{fam}|{[round(v, 5) for v in gen.values()]}|{n}|{case['start']}|{round(cfac, 4)}"
     slack = 1e-5 * n + 1e-3
     tau = 0.05 + 1e-4 * n
+    if fam in ("gengamma", "sc_gengamma", "expweib"):
+        # two shape parameters and a scale: the likelihood has a ridge along which the optimiser stops at slightly different
+        # places for x and c*x (0.17 seen on rounded data, n = 300); a wrong start, a dropped observation or a
+        # shared keyword dict costs several units
+        tau = 0.5
     info = {"family": fam, "generating": gen, "n": n, "start_kind": case["start"]}
 
     if case.get("prelude"):
